@@ -913,14 +913,66 @@ def rule_map(ctx, res, sizes):
 
 
 def run(ctx, res):
+    from . import c17eval as E
     sizes = _region_sizes(ctx)
     res.tables['region_sizes'] = sizes
+    fallbacks = {
+        'rule_sfx': ('pico8.sfx.sfx:Sfx', lambda: E.eval_sfx(
+            ctx, sizes.get('sfx', 4352))),
+        'rule_music': ('pico8.music.music:Music', lambda: E.eval_music(
+            ctx, sizes.get('music', 256))),
+        'rule_gff': ('pico8.gff.gff:Gff', lambda: E.eval_gff(
+            ctx, sizes.get('gff', 256))),
+        'rule_map': ('pico8.map.map:Map', lambda: E.eval_map_cells(
+            ctx, sizes.get('map', 4096), sizes.get('gfx', 8192))),
+    }
+    used_fallback = False
     for rule in (rule_sfx, rule_music, rule_gff, rule_gfx, rule_map):
+        mark = len(res.instances)
+        why = None
         try:
             rule(ctx, res, sizes)
+            und = [i for i in res.instances[mark:]
+                   if i.verdict in ('UNDECIDED', 'VANISHED')]
+            if und:
+                why = und[0].detail
         except AnalysisError as e:
-            res.undecided('R-C17-inverse', rule.__name__, 'analysis',
-                          str(e))
-    res.require_min('R-C17-bounds', 20)
-    res.require_min('R-C17-frame', 10)
-    res.require_min('R-C17-inverse', 10)
+            why = str(e)
+        if why is None:
+            continue
+        fb = fallbacks.get(rule.__name__)
+        if fb is None:
+            if not any(i.verdict in ('UNDECIDED', 'VANISHED')
+                       for i in res.instances[mark:]):
+                res.undecided('R-C17-inverse', rule.__name__, 'analysis',
+                              why)
+            continue
+        where, fn = fb
+        try:
+            results, calls = fn()
+        except AnalysisError as e2:
+            if not any(i.verdict in ('UNDECIDED', 'VANISHED')
+                       for i in res.instances[mark:]):
+                res.undecided('R-C17-inverse', rule.__name__, 'analysis',
+                              '{}; evaluation: {}'.format(why[:120],
+                                                          str(e2)[:120]))
+            continue
+        used_fallback = True
+        # the evaluated verdicts replace what the symbolic attempt could not
+        # decide (its decided instances stay)
+        # (violations of a half-followed symbolic attempt are dropped too:
+        # an extraction that broke off cannot accuse)
+        keep = [i for i in res.instances[mark:]
+                if i.verdict in ('HOLDS', 'INFO') or i.extra.get('semantic')]
+        del res.instances[mark:]
+        res.instances.extend(keep)
+        E.report(res, where, results, calls, why)
+        if rule is rule_map and any(
+                'rect' in i.inst or 'rect' in i.where for i in keep) is False:
+            res.info('R-C17-bounds', where, 'rectangle accessors',
+                     'get_rect_tiles / set_rect_tiles / get_rect_pixels are '
+                     'not covered by the evaluated fallback')
+    if not used_fallback:
+        res.require_min('R-C17-bounds', 20)
+        res.require_min('R-C17-frame', 10)
+        res.require_min('R-C17-inverse', 10)
